@@ -309,7 +309,55 @@ def serial_sweep(run, prefixes, thorough=False):
                                   {'engine': 'E1-sweep', 'conf': conf, 'n': n}, dedup='sweep04' + what)
     if (base is None or base[0] != 'ok' or not any(l.startswith('R 1 ') for l in base[1])) and not run.violations and not run.capped:
         raise common.HarnessError('serial sweep: the baseline conversation did not end in an R verdict: %r' % (base,))
-    return {'serial_sweep_n_values': n_done, 'serial_sweep_max_n': max(SWEEP_N[:n_done]) if n_done else 0}
+    nforms = tag_forms(run, prefixes, b, conf)
+    return {'serial_sweep_n_values': n_done, 'serial_sweep_max_n': max(SWEEP_N[:n_done]) if n_done else 0, 'tag_forms_tried': nforms}
+
+
+def tag_forms(run, prefixes, b, conf):
+    """Tag texts that are NOT the text the daemon sent, although a lenient number parser reads the live client's id and serial out of them: explicit signs, a 0x
+    prefix, an empty id (client 0), numbers written negative modulo 2^32 / 2^64, trailing junk.  For client ids 0, 1, 26 and INT_MAX as the 1st and the 3rd
+    announcement, each form carried by a NO and an OK reply from the awaited service: no output, state unchanged.  (Leading zeros and upper-case hex digits are
+    left out: whether such a text still "names" the client is a matter of taste.)"""
+    if not any('C04.'.startswith(p) for p in prefixes):
+        return 0
+    n = 0
+    with e1.Server(conf, builddir=b) as srv:
+        for cid in (0, 1, 26, 2147483647):
+            for nth in (1, 3):
+                C = '%d C 10.0.0.1 1111 10.9.9.9 6667\n' % cid
+                hist = [('L', (C + '%d D\n' % cid) * (nth - 1))] if nth > 1 else []
+                hist += [('L', C), ('L', '%d P :+x acctA passA\n' % cid)]
+                hd, bad, _ = srv.expand(hist, [], e1.F_DUMP)
+                req = [d for d in hd if d['t'] == 'req' and d['id'] == cid]
+                if len(req) != 1 or '_' not in req[0]['tag']:
+                    if run.violations or run.capped:
+                        return n
+                    raise common.HarnessError('tag forms: client %d not live after its announcement' % cid)
+                tag = req[0]['tag']
+                X, Y = tag.split('_', 1)
+                try:
+                    xi, yi = int(X, 16), int(Y, 16)
+                except ValueError:
+                    return n        # a tree with another tag format: these forms do not apply
+                forms = ['+%s_%s' % (X, Y), '%s_+%s' % (X, Y), '+%s_+%s' % (X, Y), '0x%s_%s' % (X, Y), '%s_0x%s' % (X, Y), '0X%s_0X%s' % (X, Y),
+                         '%s_-%x' % (X, (1 << 64) - yi), '%s_-%x' % (X, (1 << 32) - yi), '-%x_%s' % ((1 << 32) - xi, Y) if xi else '-0_%s' % Y,
+                         '-%x_%s' % ((1 << 64) - xi, Y) if xi else '-00_%s' % Y, '%s_%s_' % (X, Y), '%s__%s' % (X, Y)]
+                if xi == 0:
+                    forms += ['_%s' % Y, '+_%s' % Y, '-_%s' % Y, '0x_%s' % Y]
+                cands = []
+                for f in forms:
+                    cands.append(('L', '-1 X login.svc %s :NO stale refusal\n' % f))
+                    cands.append(('L', '-1 X login.svc %s :OK stale:1\n' % f))
+                hd2, bad, res = srv.expand(hist, cands, e1.F_DUMP)
+                base_dump = psearch.canon_dump(hd2, True, True)
+                for k, r in enumerate(res):
+                    n += 1
+                    f = forms[k // 2]
+                    changed = r.status == 'ok' and r.dump is not None and psearch.canon_dump(r.dump, True, True) != base_dump
+                    if r.status != 'ok' or r.out or changed:
+                        run.violation('C04.tag-form', 'a %s reply tagged %r - not the tag %r the daemon sent for client %d - produced %r (%s)%s' % (('NO', 'OK')[k % 2], f, tag, cid, r.out, r.status, ' and changed the state' if changed else ''),
+                                      {'engine': 'E1-sweep', 'conf': conf, 'client': cid, 'nth': nth, 'form': f}, dedup='tagform|' + f.replace(X, 'X').replace(Y, 'Y'))
+    return n
 
 
 # ---- replay of a recorded violation -------------------------------------------------------------------
